@@ -43,6 +43,60 @@ def transformWrong (m : Affine) (included : String → Bool) (before after : Gly
 def holdsTransform (m : Affine) (included : String → Bool) (before after : GlyphSet) : Bool :=
   (transformWrong m included before after).isEmpty && after.names == before.names
 
+/-! ### the REQUESTED matrix of the transformations filter, and the tolerance form of the predicate -/
+
+/-- what the options of the transformations filter ask for, written down point by point (Glyphs.app semantics, the
+    filter's documentation) and not as a product of `Transform` objects: relative to the origin height a point is FIRST
+    slanted (`x += tan(Slant)·y`), THEN scaled (`x *= ScaleX/100, y *= ScaleY/100`), moved back and offset.
+    `tanSlant` = `math.tan(math.radians(Slant))` is external (supplied by the harness). -/
+def requestedMap (o : TOpts) (p : Q × Q) : Q × Q :=
+  let t : Q := if o.slantNonzero then o.tanSlant else 0
+  let y := p.2 - o.originHeight
+  let x := p.1 + t * y
+  (x * (o.scaleX / 100) + o.offsetX, y * (o.scaleY / 100) + o.originHeight + o.offsetY)
+
+/-- the affine matrix of `requestedMap`: read off its values at (0,0), (1,0), (0,1) -/
+def requestedMatrix (o : TOpts) : Affine :=
+  let z := requestedMap o (0, 0)
+  let ex := requestedMap o (1, 0)
+  let ey := requestedMap o (0, 1)
+  ⟨ex.1 - z.1, ex.2 - z.2, ey.1 - z.1, ey.2 - z.2, z.1, z.2⟩
+
+def closeQ (eps a b : Q) : Bool := decide (a - b ≤ eps) && decide (b - a ≤ eps)
+
+/-- position by position -/
+def all2 {α : Type} (f : α → α → Bool) : List α → List α → Bool
+  | [], [] => true
+  | a :: as, b :: bs => f a b && all2 f as bs
+  | _, _ => false
+
+def closePt (eps : Q) (p q : Pt) : Bool := p.seg == q.seg && closeQ eps p.x q.x && closeQ eps p.y q.y
+def closeDrawing (eps : Q) (a b : List Contour) : Bool := all2 (all2 (closePt eps)) a b
+def closeAnchor (eps : Q) (a b : Anchor) : Bool := a.name == b.name && closeQ eps a.x b.x && closeQ eps a.y b.y
+
+/-- `transformWrong` for the stream whose arithmetic is not exact in doubles (Slant: tan is irrational, the filter's
+    matrix product and every mapped coordinate are rounded): for a matrix with det > 0 the filter keeps the order of contours
+    and components, so the resolved outlines are compared POSITION BY POSITION within `eps` (same segment types);
+    anchors and advance within `eps`; glyphs that are not included must be untouched exactly.  Where a singular component
+    is reachable (contour direction is meaningless) or det ≤ 0 only the number of contours is compared. -/
+def transformWrongApprox (eps : Q) (m : Affine) (included : String → Bool) (before after : GlyphSet) : List String :=
+  (after.filter (fun (n, g') =>
+    match before.get? n with
+    | none => true
+    | some g =>
+      if included n && !(g.contours.isEmpty && g.comps.isEmpty && g.anchors.isEmpty) then
+        let want := (renderGlyph before g).map (Contour.map m)
+        let got := renderGlyph after g'
+        !((if decide (m.det > 0) && nonsingularFrom (before.length + 1) before g then closeDrawing eps got want
+           else got.length == want.length) &&
+          all2 (closeAnchor eps) g'.anchors
+            (g.anchors.map (fun a => let p := m.apply (a.x, a.y); { a with x := p.1, y := p.2 })) &&
+          closeQ eps g'.width (m.applyVec (g.width, g.height)).1 &&
+          closeQ eps g'.height (m.applyVec (g.width, g.height)).2)
+      else if included n then g' != g
+      else !(g'.contours == g.contours && g'.comps == g.comps && g'.anchors == g.anchors && g'.width == g.width)
+    )).map (·.1)
+
 /-- the propagated name is the base's anchor name, possibly numbered -/
 def nameMatches (newName baseName : String) : Bool :=
   newName == baseName || (newName.startsWith (baseName ++ "_") &&
